@@ -206,4 +206,322 @@ theorem eff_act {s s' : State} {a : Action} (e : act s a = some s') : Eff s s' :
     simp only [act, Option.some.injEq] at e; subst e
     exact .quiet ⟨rfl, rfl, rfl, rfl, Or.inl rfl, fun _ => rfl, fun _ => rfl, fun _ => rfl, fun _ => rfl, fun _ => rfl⟩
 
+def positions (s : State) : List Nat := s.taken.map (fun x => x.2.1)
+def takenOf (t : Tid) (tk : List (Tid × Nat × Val)) : List Val :=
+  tk.filterMap (fun x => if x.1 = t then some x.2.2 else none)
+def posOf (t : Tid) (tk : List (Tid × Nat × Val)) : List Nat :=
+  tk.filterMap (fun x => if x.1 = t then some x.2.1 else none)
+def sentOf (t : Tid) (s : State) : List Val :=
+  (s.sentT.zip s.sent).filterMap (fun x => if x.1 = t then some x.2 else none)
+
+structure Dlv (s : State) : Prop where
+  val : ∀ x ∈ s.taken, s.sent[x.2.1]? = some x.2.2
+  lt : ∀ x ∈ s.taken, x.2.1 < s.off + s.tail
+  nodup : (positions s).Nodup
+  reading : ∀ t q, s.pc t = .rRead q → s.off + q ∉ positions s
+  cover : ∀ k, k < s.off + s.tail → k ∈ positions s ∨ ∃ t q, s.pc t = .rRead q ∧ s.off + q = k
+  rets : ∀ t, retsOf t s.log ++ inflight (s.pc t) = takenOf t s.taken
+  order : ∀ t, (posOf t s.taken).Pairwise (· < ·)
+  orderR : ∀ t q, s.pc t = .rRead q → ∀ x ∈ s.taken, x.1 = t → x.2.1 < s.off + q
+  lenT : s.sentT.length = s.sent.length
+  prod : ∀ t, sendsOf t s.log ++ pendingS (s.pc t) = sentOf t s
+
+theorem rdr_iff {p : Pc} {q : Nat} : rdr p = some q ↔ p = .rRead q := by
+  cases p <;> simp [rdr]
+
+theorem dlv_quiet {s s' : State} (h : Inv s) (d : Dlv s) (q : Quiet s s') : Dlv s' := by
+  obtain ⟨q1, q2, q3, q4, q5, q6, q7, q8, q9, q10⟩ := q
+  have rd : ∀ t p, s'.pc t = .rRead p → s.pc t = .rRead p ∧ s'.off = s.off := by
+    intro t p e
+    have e1 : s.pc t = .rRead p := by rw [← rdr_iff, ← q6, rdr_iff]; exact e
+    refine ⟨e1, ?_⟩
+    rcases q5 with q5 | q5
+    · exact q5
+    · have := noCS h q5 t; simp [e1, Pc.inCS] at this
+  constructor
+  · rw [q1, q2]; exact d.val
+  · rw [q1, q4]; exact d.lt
+  · simp only [positions, q1]; exact d.nodup
+  · intro t p e
+    obtain ⟨e1, e2⟩ := rd t p e
+    simp only [positions, q1, e2]; exact d.reading t p e1
+  · intro k hk
+    rw [q4] at hk
+    rcases d.cover k hk with c | ⟨t, p, c1, c2⟩
+    · left; simp only [positions, q1]; exact c
+    · right
+      have e1 : s'.pc t = .rRead p := by rw [← rdr_iff, q6, rdr_iff]; exact c1
+      exact ⟨t, p, e1, by rw [(rd t p e1).2]; exact c2⟩
+  · intro t; rw [q9, q7, q1]; exact d.rets t
+  · intro t; rw [q1]; exact d.order t
+  · intro t p e x hx
+    obtain ⟨e1, e2⟩ := rd t p e
+    rw [q1] at hx; rw [e2]; exact d.orderR t p e1 x hx
+  · rw [q2, q3]; exact d.lenT
+  · intro t; rw [q10, q8]; simp only [sentOf, q2, q3]; exact d.prod t
+
+theorem upd_pc {f : Nat → Pc} {t t' : Tid} {p : Pc} : upd f t p t' = if t' = t then p else f t' := rfl
+
+/-- steps that keep `taken`, `off`, `tail` and only move `t` between two non-reading points -/
+theorem dlv_frame {s s' : State} {t : Tid} {p' : Pc} (d : Dlv s)
+    (h1 : s'.taken = s.taken) (h4 : s'.off = s.off) (h5 : s'.tail = s.tail)
+    (hp : s'.pc = upd s.pc t p') (r0 : rdr (s.pc t) = none) (r1 : rdr p' = none)
+    (hs : ∀ x ∈ s.taken, s'.sent[x.2.1]? = some x.2.2)
+    (hr : ∀ t', retsOf t' s'.log ++ inflight (s'.pc t') = takenOf t' s.taken)
+    (hl : s'.sentT.length = s'.sent.length)
+    (hd : ∀ t', sendsOf t' s'.log ++ pendingS (s'.pc t') = sentOf t' s') : Dlv s' := by
+  have rd : ∀ t' q, s'.pc t' = .rRead q ↔ s.pc t' = .rRead q := by
+    intro t' q; rw [hp, upd_pc]; split
+    · rename_i e; subst e
+      constructor
+      · intro e; rw [e] at r1; simp [rdr] at r1
+      · intro e; rw [e] at r0; simp [rdr] at r0
+    · rfl
+  constructor
+  · rw [h1]; exact hs
+  · rw [h1, h4, h5]; exact d.lt
+  · simp only [positions, h1]; exact d.nodup
+  · intro t' q e; simp only [positions, h1, h4]; exact d.reading t' q ((rd t' q).1 e)
+  · intro k hk; rw [h4, h5] at hk
+    rcases d.cover k hk with c | ⟨t', q, c1, c2⟩
+    · left; simp only [positions, h1]; exact c
+    · exact Or.inr ⟨t', q, (rd t' q).2 c1, by rw [h4]; exact c2⟩
+  · rw [h1]; exact hr
+  · intro t'; rw [h1]; exact d.order t'
+  · intro t' q e x hx; rw [h1] at hx; rw [h4]; exact d.orderR t' q ((rd t' q).1 e) x hx
+  · exact hl
+  · exact hd
+
+theorem dlv_enq {s : State} {t : Tid} {pos : Nat} {v : Val} (d : Dlv s) (hpc : s.pc t = .sCas pos v) :
+    Dlv { setPc s t (.sWrite pos v) with head := pos + 1, sent := s.sent ++ [v], sentT := s.sentT ++ [t] } := by
+  refine dlv_frame (t := t) (p' := .sWrite pos v) d rfl rfl rfl rfl (by simp [hpc, rdr]) (by simp [rdr]) ?_ ?_ ?_ ?_
+  · intro x hx
+    have := d.val x hx
+    show (s.sent ++ [v])[x.2.1]? = some x.2.2
+    rw [List.getElem?_append_left]
+    · exact this
+    · by_cases e : x.2.1 < s.sent.length
+      · exact e
+      · rw [List.getElem?_eq_none (by omega)] at this; simp at this
+  · intro t'
+    show retsOf t' s.log ++ inflight (upd s.pc t (.sWrite pos v) t') = _
+    rw [upd_pc]; split
+    · rename_i e; subst e; have := d.rets t'; rw [hpc] at this; exact this
+    · exact d.rets t'
+  · show (s.sentT ++ [t]).length = (s.sent ++ [v]).length
+    simp [d.lenT]
+  · intro t'
+    show sendsOf t' s.log ++ pendingS (upd s.pc t (.sWrite pos v) t') =
+      ((s.sentT ++ [t]).zip (s.sent ++ [v])).filterMap (fun x => if x.1 = t' then some x.2 else none)
+    rw [List.zip_append d.lenT, List.filterMap_append, upd_pc]
+    have := d.prod t'
+    simp only [sentOf] at this
+    split
+    · rename_i e; subst e
+      rw [hpc] at this
+      simp [pendingS] at this ⊢
+      exact this
+    · rename_i e
+      rw [← this]
+      have : ¬ t = t' := fun e2 => e e2.symm
+      simp [this]
+
+theorem dlv_deq {s : State} {t : Tid} {pos : Nat} (d : Dlv s) (hpc : s.pc t = .rCas pos) (hh : s.tail = pos) :
+    Dlv { setPc s t (.rRead pos) with tail := pos + 1 } := by
+  subst hh
+  have pcs : ∀ t', t' ≠ t → upd s.pc t (.rRead s.tail) t' = s.pc t' := fun t' e => by simp [upd, e]
+  constructor
+  · exact d.val
+  · intro x hx; have := d.lt x hx; show x.2.1 < s.off + (s.tail + 1); omega
+  · exact d.nodup
+  · intro t' q e
+    show s.off + q ∉ positions s
+    by_cases a : t' = t
+    · subst a
+      have : q = s.tail := by simp [setPc, upd] at e; exact e.symm
+      subst this
+      intro m
+      simp only [positions, List.mem_map] at m
+      obtain ⟨x, hx, e2⟩ := m
+      have := d.lt x hx; omega
+    · have e : s.pc t' = .rRead q := by simpa [setPc, upd, a] using e
+      exact d.reading t' q e
+  · intro k hk
+    have hk : k < s.off + (s.tail + 1) := hk
+    by_cases e : k = s.off + s.tail
+    · right; exact ⟨t, s.tail, by simp [setPc, upd], e.symm⟩
+    · rcases d.cover k (by omega) with c | ⟨t', q, c1, c2⟩
+      · exact Or.inl c
+      · right
+        have a : t' ≠ t := fun a => by subst a; rw [hpc] at c1; simp at c1
+        exact ⟨t', q, by simp [setPc, upd, a]; exact c1, c2⟩
+  · intro t'
+    show retsOf t' s.log ++ inflight (upd s.pc t (.rRead s.tail) t') = _
+    rw [upd_pc]; split
+    · rename_i e; subst e; have := d.rets t'; rw [hpc] at this; exact this
+    · exact d.rets t'
+  · exact d.order
+  · intro t' q e x hx hx1
+    show x.2.1 < s.off + q
+    by_cases a : t' = t
+    · subst a
+      have : q = s.tail := by simp [setPc, upd] at e; exact e.symm
+      subst this
+      exact d.lt x hx
+    · have e : s.pc t' = .rRead q := by simpa [setPc, upd, a] using e
+      exact d.orderR t' q e x hx hx1
+  · exact d.lenT
+  · intro t'
+    show sendsOf t' s.log ++ pendingS (upd s.pc t (.rRead s.tail) t') = _
+    rw [upd_pc]; split
+    · rename_i e; subst e; have := d.prod t'; rw [hpc] at this; exact this
+    · exact d.prod t'
+theorem dlv_read {s : State} {t : Tid} {pos : Nat} (h : Inv s) (d : Dlv s) (hpc : s.pc t = .rRead pos) :
+    Dlv { setPc s t (.rZero pos (dt s pos)) with taken := s.taken ++ [(t, s.off + pos, dt s pos)] } := by
+  obtain ⟨o1, _, o3⟩ := h.rOwnR t pos hpc
+  generalize dt s pos = v at *
+  have pcs : ∀ t', t' ≠ t → upd s.pc t (.rZero pos v) t' = s.pc t' := fun t' e => by simp [upd, e]
+  have other : ∀ t' q, t' ≠ t → s.pc t' = .rRead q → q ≠ pos := by
+    intro t' q a e e2; subst e2
+    exact a (h.rUniq t' t q (by simp [e, rOwn]) (by simp [hpc, rOwn]))
+  have posE : positions { setPc s t (.rZero pos v) with taken := s.taken ++ [(t, s.off + pos, v)] }
+      = positions s ++ [s.off + pos] := by simp [positions]
+  constructor
+  · intro x hx
+    have hx : x ∈ s.taken ++ [(t, s.off + pos, v)] := hx
+    rw [List.mem_append] at hx
+    rcases hx with hx | hx
+    · exact d.val x hx
+    · simp at hx; subst hx; exact o3
+  · intro x hx
+    have hx : x ∈ s.taken ++ [(t, s.off + pos, v)] := hx
+    rw [List.mem_append] at hx
+    rcases hx with hx | hx
+    · exact d.lt x hx
+    · simp at hx; subst hx; show s.off + pos < s.off + s.tail; omega
+  · rw [posE]
+    refine List.nodup_append.2 ⟨d.nodup, by simp, ?_⟩
+    intro a ha b hb
+    simp at hb; subst hb
+    intro e; subst e
+    exact d.reading t pos hpc ha
+  · intro t' q e
+    have a : t' ≠ t := fun a => by subst a; simp [setPc, upd] at e
+    have e : s.pc t' = .rRead q := by simpa [setPc, upd, a] using e
+    rw [posE]
+    show s.off + q ∉ positions s ++ [s.off + pos]
+    rw [List.mem_append]
+    rintro (m | m)
+    · exact d.reading t' q e m
+    · simp at m; exact other t' q a e m
+  · intro k hk
+    rw [posE]
+    rcases d.cover k hk with c | ⟨t', q, c1, c2⟩
+    · left; exact List.mem_append_left _ c
+    · by_cases a : t' = t
+      · subst a; rw [hpc] at c1; injection c1 with c1; subst c1
+        left; rw [← c2]; simp
+      · right; exact ⟨t', q, by simp [setPc, upd, a]; exact c1, c2⟩
+  · intro t'
+    show retsOf t' s.log ++ inflight (upd s.pc t (.rZero pos v) t') = takenOf t' (s.taken ++ [(t, s.off + pos, v)])
+    have := d.rets t'
+    simp only [takenOf, List.filterMap_append] at this ⊢
+    rw [upd_pc]; split
+    · rename_i e; subst e
+      rw [hpc] at this
+      simp [inflight] at this ⊢
+      exact this
+    · rename_i e
+      have : ¬ t = t' := fun e2 => e e2.symm
+      simp [this]
+      exact d.rets t'
+  · intro t'
+    show (posOf t' (s.taken ++ [(t, s.off + pos, v)])).Pairwise (· < ·)
+    simp only [posOf, List.filterMap_append]
+    by_cases e : t = t'
+    · subst e
+      simp
+      rw [List.pairwise_append]
+      refine ⟨d.order t, by simp, ?_⟩
+      intro a ha b hb
+      simp at hb; subst hb
+      simp only [List.mem_filterMap] at ha
+      obtain ⟨x, hx, e2⟩ := ha
+      split at e2
+      · rename_i e3; simp at e2; subst e2; exact d.orderR t pos hpc x hx e3
+      · simp at e2
+    · simp [e]; exact d.order t'
+  · intro t' q e x hx hx1
+    have a : t' ≠ t := fun a => by subst a; simp [setPc, upd] at e
+    have e : s.pc t' = .rRead q := by simpa [setPc, upd, a] using e
+    have hx : x ∈ s.taken ++ [(t, s.off + pos, v)] := hx
+    rw [List.mem_append] at hx
+    rcases hx with hx | hx
+    · exact d.orderR t' q e x hx hx1
+    · simp at hx; subst hx; exact absurd hx1.symm a
+  · exact d.lenT
+  · intro t'
+    show sendsOf t' s.log ++ pendingS (upd s.pc t (.rZero pos v) t') = _
+    rw [upd_pc]; split
+    · rename_i e; subst e; have := d.prod t'; rw [hpc] at this; exact this
+    · exact d.prod t'
+
+theorem dlv_ret {s s' : State} {t : Tid} {ev : Ev} (d : Dlv s)
+    (h1 : s'.taken = s.taken ∧ s'.sent = s.sent ∧ s'.sentT = s.sentT ∧ s'.off = s.off ∧ s'.tail = s.tail)
+    (h2 : s'.pc = upd s.pc t .idle) (h3 : s'.log = s.log ++ [ev])
+    (hrd : rdr (s.pc t) = none)
+    (hr : ∀ t', (recvVal t' ev).toList ++ inflight (if t' = t then .idle else s.pc t') = inflight (s.pc t'))
+    (hs : ∀ t', (sendVal t' ev).toList ++ pendingS (if t' = t then .idle else s.pc t') = pendingS (s.pc t')) :
+    Dlv s' := by
+  obtain ⟨k1, k2, k3, k4, k5⟩ := h1
+  refine dlv_frame (t := t) (p' := .idle) d k1 k4 k5 h2 hrd rfl ?_ ?_ ?_ ?_
+  · rw [k2]; exact d.val
+  · intro t'
+    rw [h3, h2, upd_pc, ← d.rets t', ← hr t']
+    simp only [retsOf, List.filterMap_append, List.append_assoc]
+    congr 1
+  · rw [k2, k3]; exact d.lenT
+  · intro t'
+    have : sentOf t' s' = sentOf t' s := by simp only [sentOf, k2, k3]
+    rw [this, h3, h2, upd_pc, ← d.prod t', ← hs t']
+    simp only [sendsOf, List.filterMap_append, List.append_assoc]
+    congr 1
+
+theorem dlv_act {s s' : State} {a : Action} (h : Inv s) (d : Dlv s) (e : act s a = some s') : Dlv s' := by
+  cases eff_act e with
+  | quiet q => exact dlv_quiet h d q
+  | enq t pos v hpc hh e => subst e; exact dlv_enq d hpc
+  | deq t pos hpc hh e => subst e; exact dlv_deq d hpc hh
+  | read t pos hpc e => subst e; exact dlv_read h d hpc
+  | rret t v hpc h1 h2 h3 =>
+    refine dlv_ret d h1 h2 h3 (by simp [hpc, rdr]) ?_ ?_
+    · intro t'; by_cases e : t' = t
+      · subst e; simp [recvVal, hpc, inflight]
+      · have : ¬ t = t' := fun e2 => e e2.symm
+        simp [recvVal, e, this]
+    · intro t'; by_cases e : t' = t
+      · subst e; simp [sendVal, hpc, pendingS]
+      · simp [sendVal, e]
+  | sret t v hpc h1 h2 h3 =>
+    refine dlv_ret d h1 h2 h3 (by simp [hpc, rdr]) ?_ ?_
+    · intro t'; by_cases e : t' = t
+      · subst e; simp [recvVal, hpc, inflight]
+      · simp [recvVal, e]
+    · intro t'; by_cases e : t' = t
+      · subst e; simp [sendVal, hpc, pendingS]
+      · have : ¬ t = t' := fun e2 => e e2.symm
+        simp [sendVal, e, this]
+
+theorem dlv_init {c : Nat} {x : Int} {s : State} (h : init c x = some s) : Dlv s := by
+  unfold init at h
+  split at h
+  · simp at h
+  · simp at h; subst h
+    constructor <;> simp [positions, retsOf, sendsOf, inflight, pendingS, takenOf, posOf, sentOf]
+
+theorem dlv_run {c : Nat} {x : Int} {s0 : State} (h : init c x = some s0) (as : List Action) :
+    Inv (run s0 as) ∧ Dlv (run s0 as) :=
+  run_induction (P := fun s => Inv s ∧ Dlv s) ⟨inv_init h, dlv_init h⟩
+    (fun _ _ _ hs e => ⟨inv_act hs.1 e, dlv_act hs.1 hs.2 e⟩) as
+
 end OpenFGAVerif.Proofs.Mpmc
